@@ -52,10 +52,12 @@ def ev (id : Nat) (r : Req) : Ev := ⟨id, r.path, r.ctxErr⟩
 
 /-- request matchers. `atom f vals` is a real `host`/`path`/`method`/`header` matcher configured
     with exact values; `err kind st` is a matcher that reports an error (kind 0: `(false, err)`,
-    kind 1: `(true, err)`, kind 2: legacy `Match` + `MatcherErrorVarKey`); `not` is `MatchNot`. -/
+    kind 1: `(true, err)`, kind 2: legacy `Match` + `MatcherErrorVarKey`); `legacy b` implements
+    only the deprecated `RequestMatcher` interface and answers `b`; `not` is `MatchNot`. -/
 inductive Matcher where
   | atom (f : Field) (vals : List Nat)
   | err (kind st : Nat)
+  | legacy (b : Bool)
   | not (sets : List (List Matcher))
 
 /-- `(bool, error)` of the `MatchWithError` family -/
@@ -69,6 +71,7 @@ mutual
 def evalMatcher : Matcher → Req → MRes
   | .atom f vals, r => .ok (vals.contains (r.get f))
   | .err _ st, _ => .err st
+  | .legacy b, _ => .ok b
   | .not sets, r => evalNot sets r
 /-- `MatchNot.MatchWithError`: an error aborts, a matching set makes the result false -/
 def evalNot : List (List Matcher) → Req → MRes
